@@ -757,9 +757,8 @@ func runLocalSync(t *testing.T, tp *simrt.Tape, prop string) hx.Result {
 						res.HarnessErr = "move: " + err.Error()
 					}
 					r.work = w.path(r)
-					w.commit(r, w.name(r))
 				}
-				history = append(history, "move rootA/group/beta and rootA/group/beta-old to rootB, commit in both")
+				history = append(history, "move rootA/group/beta and rootA/group/beta-old to rootB (no new commits)")
 				syncPair(allRoots, false)
 			}
 		case 2:
